@@ -1,13 +1,21 @@
 --------------------------- MODULE Trace_Sampling ---------------------------
 (* code -> spec: validates recordings of the real SDK against SamplingModel/RatioBits.  *)
 (* One line per step:                                                                    *)
-(*  Forest{sampler,remotes,acts,obs}  a span forest started/ended on a real provider     *)
-(*        (SDK random ID generator; acts[i].hi = class of the trace ID the SDK drew);    *)
+(*  Forest{sampler,remotes,acts,obs}  a span forest started/ended on 1..8 real providers *)
+(*        of one process (SDK random ID generators; acts[i].p = the provider,            *)
+(*        acts[i].hi = class of the trace ID the SDK drew; NewProv = one more provider); *)
 (*        the model forest is computed with the operators of SamplingModel and compared  *)
-(*        with the projected observation obs.                                            *)
+(*        with the projected observation obs (IDs unique over the union of providers).   *)
 (*  Ratio{tids,ratios,d,tsKept}       decisions d[t][r] of fresh TraceIDRatioBased(r)    *)
 (*        samplers for real trace IDs (8 limbs) and ratio bit patterns (4 limbs).        *)
-(*  Ids{...}    counts over 10^5..10^6 spans started from several goroutines.            *)
+(*  Ids{src,nprov,...}  counts over 10^4..10^6 spans started from several goroutines on   *)
+(*        nprov providers (default ID generators) created up-front / staggered /         *)
+(*        concurrently / in a tight loop; uniqueness over the UNION of all providers.    *)
+(*  Proc{proc,fls,exp}  spans with the trace-flags bytes fls handed directly to a simple /*)
+(*        batch span processor; exp[k] = times span k reached the exporter.              *)
+(*  Flush{n,sampled,exported,...}  volume scenario on a batch processor under concurrent *)
+(*        ForceFlush: spans 1..n, the sampled ones whose End returned before the final   *)
+(*        ForceFlush was called, and every span index the exporter received.             *)
 (*  Share{k,n,count}  count of n random root spans sampled at ratio k/64.                *)
 EXTENDS SamplingModel, RatioBits, TraceKit
 
@@ -20,7 +28,9 @@ RunActs(s, remotes, spans, acts) ==
   IF acts = <<>> THEN spans
   ELSE LET a == Head(acts) IN
        RunActs(s, remotes,
-               IF a.op = "Start" THEN StartSpan(s, spans, remotes, a) ELSE EndAt(spans, a.i),
+               CASE a.op = "Start" -> StartSpan(s, spans, remotes, a)
+                 [] a.op = "End" -> EndAt(spans, a.i)
+                 [] OTHER -> spans,          \* NewProv: one more provider, no span
                Tail(acts))
 
 DiffField(o, m) ==
@@ -29,6 +39,7 @@ DiffField(o, m) ==
     [] o.tr # m.tr -> "tr"
     [] o.hi # m.hi -> "hi"
     [] o.sampled # m.sampled -> "sampled"
+    [] ~SubMask(o.flx, m.flx) -> "flx"
     [] o.rec # m.rec -> "rec"
     [] o.ts # m.ts /\ o.ts # m.tsAlt -> "ts"
     [] o.parOK # m.parOK -> "parOK"
@@ -37,6 +48,23 @@ DiffField(o, m) ==
     [] o.expS # m.expS -> "expS"
     [] o.expB # m.expB -> "expB"
     [] OTHER -> ""
+
+(* which clause of the statement a differing component belongs to *)
+ExpClause(o, m) == IF o < m THEN "sampled-not-exported"
+                   ELSE IF m = 0 THEN "unsampled-exported" ELSE "exported-more-than-once"
+Clause(why, o, m) ==
+  CASE why = "expS" -> ExpClause(o.expS, m.expS)
+    [] why = "expB" -> ExpClause(o.expB, m.expB)
+    [] why \in {"tidOK", "sidOK", "tr", "hi", "parOK"} -> "ids"
+    [] why \in {"sampled", "flx"} -> "flag"
+    [] why \in {"rec", "onStart", "onEnd"} -> "recording"
+    [] why = "ts" -> "tracestate"
+    [] OTHER -> why
+(* the flags byte of the context span i was started under: -1 none, -2 a local SDK span *)
+ParentFlags(e, m, i) ==
+  CASE m[i].par.kind = "remote" -> e.remotes[m[i].par.i].fl
+    [] m[i].par.kind = "local" -> -2
+    [] OTHER -> -1
 
 TForest ==
   /\ l <= Len(Trace) /\ Trace[l].ev = "Forest"
@@ -48,7 +76,10 @@ TForest ==
           LET i == CHOOSE j \in bad : \A k \in bad : j <= k IN
           Viol([line |-> l, kind |-> "forest", sc |-> e.sc, span |-> i,
                 why |-> IF i = 0 THEN "nspans" ELSE DiffField(e.obs[i], m[i]),
+                clause |-> IF i = 0 THEN "" ELSE Clause(DiffField(e.obs[i], m[i]), e.obs[i], m[i]),
                 par |-> IF i = 0 THEN "" ELSE m[i].par.kind,
+                pfl |-> IF i = 0 THEN -1 ELSE ParentFlags(e, m, i),
+                nprov |-> e.nprov,
                 want |-> m, got |-> e.obs])
   /\ l' = l + 1
 
@@ -85,11 +116,13 @@ TRatio ==
 TIds ==
   /\ l <= Len(Trace) /\ Trace[l].ev = "Ids"
   /\ LET e == Trace[l] IN
-     /\ (e.distinctSid # e.n) => Viol([line |-> l, kind |-> "ids", why |-> "span-id-not-unique", n |-> e.n, distinct |-> e.distinctSid])
-     /\ (e.invalidSid # 0) => Viol([line |-> l, kind |-> "ids", why |-> "span-id-invalid", n |-> e.invalidSid])
-     /\ (e.invalidTid # 0) => Viol([line |-> l, kind |-> "ids", why |-> "trace-id-invalid", n |-> e.invalidTid])
-     /\ (e.distinctRootTid # e.roots) => Viol([line |-> l, kind |-> "ids", why |-> "root-trace-id-not-fresh", n |-> e.roots, distinct |-> e.distinctRootTid])
-     /\ (e.childTidEq # e.children) => Viol([line |-> l, kind |-> "ids", why |-> "child-trace-id", n |-> e.children, eq |-> e.childTidEq])
+     \* n spans of e.nprov providers of ONE process: n distinct valid span IDs; every root a valid
+     \* trace ID no other root (of any provider) has; every child its parent's trace ID
+     /\ (e.distinctSid # e.n) => Viol([line |-> l, kind |-> "ids", why |-> "span-id-not-unique", src |-> e.src, nprov |-> e.nprov, n |-> e.n, distinct |-> e.distinctSid])
+     /\ (e.invalidSid # 0) => Viol([line |-> l, kind |-> "ids", why |-> "span-id-invalid", src |-> e.src, nprov |-> e.nprov, n |-> e.invalidSid])
+     /\ (e.invalidTid # 0) => Viol([line |-> l, kind |-> "ids", why |-> "trace-id-invalid", src |-> e.src, nprov |-> e.nprov, n |-> e.invalidTid])
+     /\ (e.distinctRootTid # e.roots) => Viol([line |-> l, kind |-> "ids", why |-> "root-trace-id-not-fresh", src |-> e.src, nprov |-> e.nprov, n |-> e.roots, distinct |-> e.distinctRootTid])
+     /\ (e.childTidEq # e.children) => Viol([line |-> l, kind |-> "ids", why |-> "child-trace-id", src |-> e.src, nprov |-> e.nprov, n |-> e.children, eq |-> e.childTidEq])
   /\ l' = l + 1
 
 (* ---------------------------------------------------------------- share tracks ratio *)
@@ -108,8 +141,44 @@ TShare ==
         Viol([line |-> l, kind |-> "share", why |-> "share", k |-> e.k, n |-> e.n, count |-> e.count, src |-> e.src])
   /\ l' = l + 1
 
+(* ---------------------------------------------------------------- processors and flags *)
+(* "it reaches exporters exactly when sampled": sampled = the low bit of the flags byte.  *)
+TProc ==
+  /\ l <= Len(Trace) /\ Trace[l].ev = "Proc"
+  /\ LET e == Trace[l] IN
+     \A k \in 1..Len(e.fls) :
+       LET want == IF SampledBit(e.fls[k]) THEN 1 ELSE 0 IN
+       (e.exp[k] # want) =>
+          Viol([line |-> l, kind |-> "proc", proc |-> e.proc, why |-> ExpClause(e.exp[k], want),
+                fl |-> e.fls[k], got |-> e.exp[k], want |-> want])
+  /\ l' = l + 1
+
+(* ---------------------------------------------------------------- export under concurrent flushes *)
+(* Spans 1..n were started and ended from several goroutines on a provider with a batch  *)
+(* processor whose queue cannot overflow, while other goroutines called ForceFlush; then  *)
+(* (every End having returned) ForceFlush and Shutdown were called and returned nil.      *)
+(* Exactly the sampled spans reached the exporter (exactly-once under interleavings is    *)
+(* C01; here only the end-to-end bookkeeping of the clause).                              *)
+SeqRange(s) == {s[i] : i \in 1..Len(s)}
+Some(S) == IF S = {} THEN 0 ELSE CHOOSE x \in S : TRUE
+TFlush ==
+  /\ l <= Len(Trace) /\ Trace[l].ev = "Flush"
+  /\ LET e == Trace[l]
+         want == SeqRange(e.sampled)
+         got  == SeqRange(e.exported)
+     IN /\ (want \ got # {}) =>
+             Viol([line |-> l, kind |-> "flush", why |-> "sampled-not-exported", sc |-> e.sc,
+                   count |-> Cardinality(want \ got), first |-> Some(want \ got), n |-> e.n])
+        /\ (got \ want # {}) =>
+             Viol([line |-> l, kind |-> "flush", why |-> "unsampled-exported", sc |-> e.sc,
+                   count |-> Cardinality(got \ want), first |-> Some(got \ want), n |-> e.n])
+        /\ (Len(e.exported) # Cardinality(got)) =>
+             Viol([line |-> l, kind |-> "flush", why |-> "exported-more-than-once", sc |-> e.sc,
+                   count |-> Len(e.exported) - Cardinality(got), first |-> 0, n |-> e.n])
+  /\ l' = l + 1
+
 Init == l = 1
 TDone == l = Len(Trace) + 1 /\ Accepted(l) /\ UNCHANGED vars
-Next == TForest \/ TRatio \/ TIds \/ TShare \/ TDone
+Next == TForest \/ TRatio \/ TIds \/ TShare \/ TProc \/ TFlush \/ TDone
 Spec == Init /\ [][Next]_vars
 =============================================================================
